@@ -170,6 +170,13 @@ func c19Worker(in []byte) interface{} {
 		return res
 	}
 	g1 := callGraphJSON(ast1)
+	if strings.HasPrefix(g0, "ERR:") {
+		// the original program has no call graph to compare with
+		e.Fresh = false
+		if e.Kind == "remove-unused" || e.Kind == "remove-input" || e.Kind == "remove-output" {
+			return res
+		}
+	}
 	switch e.Kind {
 	case "rename":
 		if e.Fresh {
@@ -192,7 +199,7 @@ func c19Worker(in []byte) interface{} {
 				add("nodes-changed:"+e.Kind, fmt.Sprintf("the set of call graph nodes changed after %v: %v vs %v", e, f0, f1))
 			}
 		}
-		if e.Kind != "remove-output" {
+		if e.Kind == "remove-unused" {
 			// the top-level outputs must resolve as before
 			var a, b map[string]interface{}
 			json.Unmarshal([]byte(g0), &a)
@@ -207,6 +214,9 @@ func c19Worker(in []byte) interface{} {
 				json.Unmarshal(ja, &oa)
 				json.Unmarshal(jb, &ob)
 				for k, v := range ob.Expression {
+					if _, ok := oa.Expression[k]; !ok {
+						continue
+					}
 					if string(oa.Expression[k]) != string(v) && !strings.Contains(string(v), "null") {
 						add("top-outputs-changed:"+e.Kind, fmt.Sprintf("top-level output %s resolves differently after %v: %s vs %s", k, e, truncate(string(oa.Expression[k]), 300), truncate(string(v), 300)))
 					}
@@ -304,7 +314,13 @@ func init() {
 					add(c19Edit{Kind: "rename", Callable: cb.name, NewName: callNames[rng.Intn(len(callNames))]})
 				}
 				for _, in := range cb.ins {
-					if rng.Intn(2) == 0 {
+					prefixOfSibling := false
+					for _, i2 := range cb.ins {
+						if i2.Name != in.Name && strings.HasPrefix(i2.Name, in.Name) {
+							prefixOfSibling = true
+						}
+					}
+					if prefixOfSibling || rng.Intn(2) == 0 {
 						add(c19Edit{Kind: "rename-input", Callable: cb.name, Param: in.Name, NewName: fmt.Sprintf("fresh_in_%d", rng.Intn(1000)), Fresh: true})
 					}
 					if rng.Intn(3) == 0 && p.Stage(cb.name) != nil {
@@ -313,13 +329,19 @@ func init() {
 					}
 				}
 				for k, o := range cb.outs {
-					if rng.Intn(2) == 0 {
+					prefixOfSibling := false
+					for _, o2 := range cb.outs {
+						if o2.Name != o.Name && strings.HasPrefix(o2.Name, o.Name) {
+							prefixOfSibling = true
+						}
+					}
+					if prefixOfSibling || rng.Intn(2) == 0 {
 						add(c19Edit{Kind: "rename-output", Callable: cb.name, Param: o.Name, NewName: fmt.Sprintf("fresh_out_%d", rng.Intn(1000)), Fresh: true})
 					}
 					if len(cb.outs) > 1 && rng.Intn(3) == 0 {
 						// new name = another output's name plus a suffix / a prefix of it
 						other := cb.outs[(k+1)%len(cb.outs)].Name
-						add(c19Edit{Kind: "rename-output", Callable: cb.name, Param: o.Name, NewName: other + "_x"})
+						add(c19Edit{Kind: "rename-output", Callable: cb.name, Param: o.Name, NewName: other + "_zz"})
 					}
 					if rng.Intn(4) == 0 {
 						add(c19Edit{Kind: "remove-output", Callable: cb.name, Param: o.Name})
